@@ -87,7 +87,22 @@ class InputFactory:
                 si.parts = {'args': subs, 'kwargs': ksubs}
                 return si
             if kind == 'opt':
-                raise Unsupported('optional sort')
+                if I.branch(I.fresh_bool(hint + '_isnone')):
+                    return SymInput(sort, None, lambda m: {'none': 1})
+                return self.make(sort[1], hint)
+            if kind == 'tuple':
+                subs = [self.make(x, f'{hint}_{i}') for i, x in enumerate(sort[1])]
+                return SymInput(sort, tuple(s.value for s in subs), lambda m: {'tuple': [s.extract(m) for s in subs]},
+                                sum([s.sizes for s in subs], []), sum([s.coords for s in subs], []))
+            if kind == 'with':
+                base = self.make(sort[1], hint)
+                subs = {k: self.make(v, f'{hint}_{k}') for k, v in sort[2].items()}
+                for k, s in subs.items():
+                    base.value.fields[k] = s.value
+                return SymInput(sort, base.value, lambda m: {'with': base.extract(m),
+                                                             'set': {k: s.extract(m) for k, s in subs.items()}},
+                                base.sizes + sum([s.sizes for s in subs.values()], []),
+                                base.coords + sum([s.coords for s in subs.values()], []))
         if sort == 'int':
             v = I.fresh_int(hint)
             return SymInput(sort, v, lambda m: mint(m, v), coords=[v])
@@ -108,7 +123,11 @@ class InputFactory:
                     return float(r.approx(10).as_fraction())
             return SymInput(sort, v, ex)
         if sort == 'None':
-            return SymInput(sort, None, lambda m: None)
+            return SymInput(sort, None, lambda m: {'none': 1})
+        if sort == 'Token':
+            from .verify import StubToken
+            tok = StubToken(hint, 0)
+            return SymInput(sort, tok, lambda m: {'token': hint})
         ec = self.enum_cls(sort)
         if ec:
             cls = self.cls(*ec)
